@@ -87,7 +87,7 @@ NOT_APPLICABLE = [
 
 # thorough tiers that were run end to end on the unchanged tree in the last session (exit 0 within ~35 min on 16 cores); the others keep
 # their `--tier thorough` bounds in the harness but are not registered: a registered command must be known to finish
-THOROUGH_VERIFIED: set = set()
+THOROUGH_VERIFIED: set = {"C04", "C09", "C10", "C11", "C13", "C15", "C19", "C20"}
 
 
 def main():
